@@ -328,7 +328,10 @@ fn main() -> Result<(), Box<dyn std::error::Error>> {
                     total_clients += client_ping;
 
                     if total_clients == 0 && admin_only {
-                        let _ = exit_tx.send(()).await;
+                        // The exit may already have been requested (the count can reach zero more
+                        // than once when a login that was in flight completes late): waiting for
+                        // room in the channel would block the only task that reads it.
+                        let _ = exit_tx.try_send(());
                     }
                 }
             }
